@@ -31,3 +31,54 @@ Proof.
   - intros E. rewrite (Hl E). f_equal. f_equal. unfold logicals. cbn [lxs lzs code_of]. rewrite <- map_app, map_map.
     apply map_ext_in. intros l Hin. apply bsp_is_anticommutation. rewrite Lp, Uxz; auto.
 Qed.
+
+(* ---- flip locality: a measurement flip at step t0 enters row t0 and row (t0+1) mod T, and nothing else ---- *)
+Fixpoint upd_nth (t : nat) (f : bsf -> bsf) (l : list bsf) : list bsf :=
+  match l, t with
+  | [], _ => []
+  | x :: r, O => f x :: r
+  | x :: r, S t' => x :: upd_nth t' f r
+  end.
+Lemma upd_nth_length t f l : length (upd_nth t f l) = length l.
+Proof. revert t. induction l as [|x r IH]; intros [|t]; cbn; auto. Qed.
+Lemma upd_nth_nth t f l j : t < length l -> nth j (upd_nth t f l) [] = if j =? t then f (nth t l []) else nth j l [].
+Proof.
+  revert t j. induction l as [|x r IH]; intros [|t] [|j] H; cbn in *; try lia; auto.
+  apply IH. lia.
+Qed.
+Definition flip_if (b : bool) (d m : bsf) : bsf := if b then xorv m d else m.
+
+(* toggling the flips of step t0 by d changes the m[t-1] term of row (t0+1) mod T and the m[t] term of row t0 *)
+Theorem flip_locality stabs errs ms t0 d t :
+  length errs = length ms -> t0 < length ms -> t < length ms ->
+  nth t (decoder_syndrome stabs errs (upd_nth t0 (fun m => xorv m d) ms)) [] =
+  xorv (xorv (flip_if ((t + length ms - 1) mod length ms =? t0) d (nth ((t + length ms - 1) mod length ms) ms []))
+             (syndrome_of stabs (nth t errs [])))
+       (flip_if (t =? t0) d (nth t ms [])).
+Proof.
+  intros HL Ht0 Ht.
+  rewrite syndrome_ftp_nth by (rewrite ?upd_nth_length; lia). rewrite upd_nth_length.
+  assert (Hm : (t + length ms - 1) mod length ms < length ms) by (apply Nat.mod_upper_bound; lia).
+  rewrite !upd_nth_nth by lia. unfold flip_if.
+  destruct (Nat.eqb_spec ((t + length ms - 1) mod length ms) t0) as [->|], (Nat.eqb_spec t t0) as [->|]; reflexivity.
+Qed.
+(* every other row is untouched *)
+Corollary flip_untouched stabs errs ms t0 d t :
+  length errs = length ms -> t0 < length ms -> t < length ms ->
+  t <> t0 -> (t + length ms - 1) mod length ms <> t0 ->
+  nth t (decoder_syndrome stabs errs (upd_nth t0 (fun m => xorv m d) ms)) [] = nth t (decoder_syndrome stabs errs ms) [].
+Proof.
+  intros HL Ht0 Ht N1 N2. rewrite flip_locality by auto. rewrite syndrome_ftp_nth by lia. unfold flip_if.
+  destruct (Nat.eqb_spec ((t + length ms - 1) mod length ms) t0); [contradiction|].
+  destruct (Nat.eqb_spec t t0); [contradiction|]. reflexivity.
+Qed.
+(* with a single time step the two terms coincide and the flip cancels: the decoder sees the bare syndrome *)
+Corollary flip_single_step stabs e m d : length m = length d -> length (syndrome_of stabs e) = length d ->
+  decoder_syndrome stabs [e] [xorv m d] = decoder_syndrome stabs [e] [m].
+Proof.
+  intros Lm Ls. unfold decoder_syndrome, step_syndromes, rot. cbn [rev app map rows3]. f_equal.
+  set (s := syndrome_of stabs e).
+  assert (G : forall x, length x = length d -> xorv (xorv x s) x = s).
+  { intros x Lx. rewrite (xorv_comm x s), xorv_assoc, xorv_self. rewrite <- Ls in Lx. rewrite Lx. apply xorv_zeros_r. }
+  rewrite (G m Lm). apply G. rewrite xorv_length; lia.
+Qed.
